@@ -79,9 +79,9 @@ type Hist struct {
 // ------------------------------------------------------------- world state
 
 type contRec struct {
-	RG                  int32
-	Tot, Up, Down, SSU  int32
-	LSN                 int32
+	RG                 int32
+	Tot, Up, Down, SSU int32
+	LSN                int32
 }
 
 type sess struct {
@@ -106,10 +106,10 @@ type subState struct {
 }
 
 type World struct {
-	subs   []*subState
-	lsn    int32
-	chgID  int32
-	isn    int32
+	subs    []*subState
+	lsn     int32
+	chgID   int32
+	isn     int32
 	foreign *subState // a subscriber with a live session used for foreign-ref probes
 }
 
@@ -300,7 +300,7 @@ func (w *World) Exec(op Op) *Result {
 		units, recs, online := w.buildUnits(op, se, true)
 		req := models.ChfConvergedChargingChargingDataRequest{SubscriberIdentifier: st.supi, ChargingId: se.chargingID,
 			NfConsumerIdentification: &models.ChfConvergedChargingNfIdentification{NFName: se.name, NodeFunctionality: "SMF"},
-			InvocationTimeStamp: &now, InvocationSequenceNumber: isn, NotifyUri: env.Sink.URL + "/notify/" + st.supi,
+			InvocationTimeStamp:      &now, InvocationSequenceNumber: isn, NotifyUri: env.Sink.URL + "/notify/" + st.supi,
 			MultipleUnitUsage: units, Triggers: trig(op.Trig)}
 		body, _ := json.Marshal(req)
 		path := prefix + "/chargingdata/" + se.ref + "/" + op.K
